@@ -198,6 +198,9 @@ def corpus_cases():
         {"kind": "theta", "rec": "$THETA (FIX 3, 3) 2\n", "edits": [[{"lower": "-inf"}, {}]], "remove": [], "seed": 6},
         {"kind": "theta", "rec": "$THETA (3 FIX) 2\n", "edits": [[{"lower": 1.0}, {}]], "remove": [], "seed": 7},
         {"kind": "theta", "rec": "$THETA (-INF,3,INF) 2 ; x\n", "edits": [[{"init": 2.0}, {}]], "remove": [1], "seed": 8},
+        # explicit infinite upper bound + lower bound removed (regression fixed by 6b0a1ad): must be written `7.5`
+        {"kind": "theta", "rec": "$THETA (0,7.5,INF) 2\n", "edits": [[{"lower": "-inf"}, {}]], "remove": [], "seed": 15},
+        {"kind": "theta", "rec": "$THETA (0,7.5,1000000)x2 FIX\n", "edits": [[{"lower": "-inf"}, {"lower": "-inf"}]], "remove": [], "seed": 16},
         # split-xn path of the diagonal omega update: FIX removed where it agrees, inserted where it differs
         {"kind": "diag", "rec": "$OMEGA (0.1 FIX)x2\n", "edits": [[{}, {"init": 0.25}]], "remove": [], "seed": 9},
         # FIX tied to an init of a BLOCK (not on the header) and the block is unfixed / fixed again
@@ -402,9 +405,6 @@ def classify_update(facts, old_ps, new_ps):
         return "theta-inner-comment-edit"
     if facts["trailing_comma"]:
         return "theta-trailing-comma-edit"
-    if facts["up"] is not None and facts["up"].upper() in ("INF", "1000000") and new_ps[0][2] == INF \
-            and old_ps[0][1] > -INF and new_ps[0][1] == -INF:
-        return "theta-explicit-inf-upper-kept"
     if facts["rpar_adjacent"] and new_ps[0][1] > -1e6 and new_ps[0][2] == INF:
         return "theta-low-init-rpar-adjacent"
     return None
